@@ -467,6 +467,7 @@ type Contract struct {
 	WritePre   map[string][]Clause // obligations at every assignment to a field of that name
 	CallPre    map[string][]Clause // emit-preconditions: callee name[.ordinal] -> clauses over the caller's variables and the callee's parameters
 	Props      []string
+	Shape      string // signature, loop forms and number of literals of the body the contract was written for (bin/shapes)
 	OptionalSites map[string]bool // emit-clause keys that need not meet a site
 }
 
@@ -510,7 +511,7 @@ type ContractFile struct {
 
 var clauseKW = map[string]bool{"contract": true, "extern": true, "requires": true, "ensures": true, "assigns": true,
 	"loop": true, "pred": true, "func": true, "ufunc": true, "axiom": true, "guards": true, "lockinv": true, "rely": true,
-	"chaninv": true, "chanassume": true, "ghost": true, "trusted": true, "panics": true, "props": true, "quiet": true, "pure": true, "firstdefer": true, "checkgo": true, "wakeup": true, "counts": true, "callpre": true, "arith": true, "writepre": true, "sendpre": true, "storepre": true, "deletepre": true}
+	"chaninv": true, "chanassume": true, "ghost": true, "trusted": true, "panics": true, "props": true, "quiet": true, "pure": true, "firstdefer": true, "checkgo": true, "wakeup": true, "counts": true, "callpre": true, "arith": true, "writepre": true, "sendpre": true, "storepre": true, "deletepre": true, "shape": true}
 
 func firstWord(s string) string {
 	s = strings.TrimSpace(s)
@@ -725,6 +726,10 @@ func parseContractText(data, path, pkg string) (*ContractFile, error) {
 		case "firstdefer":
 			if cur != nil {
 				cur.FirstDefer = rest
+			}
+		case "shape":
+			if cur != nil {
+				cur.Shape = strings.TrimSpace(rest)
 			}
 		case "counts":
 			if cur != nil {
